@@ -908,15 +908,64 @@ class C02(Property):
         return {"t0": case["t0"], "mode": case["mode"], "group": cfg if case["via"] == "group" else None,
                 "shedders": [cfg], "ops": ops}, off
 
+    whitebox = True     # False: the white-box overlay of core/load could not be built against this tree (see prepare)
+
+    def _executors(self):
+        """EXECUTORS with the overlay sources adapted to today's unexported identifiers of core/load (tools/c02names.py)"""
+        if getattr(self, "_ov", None) is None:
+            import c02names
+            self._names, self._missing, self._name_notes = c02names.resolve()
+            self._ov = {ex: (pkg, c02names.materialize(ov, self._names), test) for ex, (pkg, ov, test) in EXECUTORS.items()}
+        return self._ov
+
     def _run_executor(self, ex, sub):
-        pkg, ov, test = EXECUTORS[ex]
+        pkg, ov, test = self._executors()[ex]
         return vlib.go_test_overlay(pkg, ov, run=test, cases=sub, tag="c02" + ex, timeout=900)
+
+    @staticmethod
+    def _to_wrest(case):
+        """black-box fall-back: a single-shedder history as requests through the real SheddingHandler (public API of
+        core/load, CPU stub, virtual clock): Allow = a request arrives, Pass / Fail = its handler ends with 200 / 503.
+        None when the history needs what only the white-box executor can do."""
+        if (case.get("kind", "shed") != "shed" or case["mode"] != "real" or not case["enabled"] or case["via"] != "direct"
+                or case.get("omit") or case["threshold"] == 1000 or case["t0"] == 0):
+            return None
+        how, seen = {}, set()
+        for o in case["ops"]:
+            if o[0] != "allow":
+                if o[1] in seen:
+                    return None         # double resolution: a handler ends once
+                seen.add(o[1])
+                how[o[1]] = o[0]
+        reqs, ops, t = [], [], case["t0"]
+        for i, o in enumerate(case["ops"]):
+            if o[0] == "allow":
+                t = o[1]
+                reqs.append({"codes": [503] if how.get(i) == "fail" else [], "body": how.get(i) != "fail", "panic": False})
+                ops.append(["start", t, o[2], len(reqs) - 1])
+            elif o[0] == "pass":
+                t = o[2]
+                ops.append(["finish", o[1], t])
+            else:
+                ops.append(["finish", o[1], t])
+        return {"kind": "wrest", "window": case["window"], "buckets": case["buckets"], "threshold": case["threshold"],
+                "t0": case["t0"], "reqs": reqs, "ops": ops, "from_shed": True}
 
     def execute(self, cases, ctx):
         out = [None] * len(cases)
         jobs = {}
+        if not self.whitebox:
+            # black-box fall-back: single-shedder histories go through the REST wrapper, the other white-box kinds are
+            # not executed (and say so)
+            for i, c in enumerate(cases):
+                if EXEC_OF[c.get("kind", "shed")] in ("shed", "conc", "group"):
+                    w = self._to_wrest(c)
+                    cases[i] = dict(w, id=c.get("id"), corpus=c.get("corpus", False)) if w else dict(c, skipped=True)
+        for i, c in enumerate(cases):
+            if c.get("skipped"):
+                out[i] = {"skipped": True}
         for ex in EXECUTORS:
-            idx = [i for i, c in enumerate(cases) if EXEC_OF[c.get("kind", "shed")] == ex]
+            idx = [i for i, c in enumerate(cases) if EXEC_OF[c.get("kind", "shed")] == ex and not c.get("skipped")]
             if not idx:
                 continue
             sub, offs = [], []
@@ -975,22 +1024,36 @@ class C02(Property):
         def one(ex):
             return self._run_executor(ex, [])
         exs = [ex for ex in EXECUTORS if ex not in ("group", "conc")]
+        self._executors()
+        ctx.notes += ["white-box identifiers: " + x for x in self._name_notes]
         if vlib.COVER:
             rs = [one(ex) for ex in exs]
         else:
             import concurrent.futures
             with concurrent.futures.ThreadPoolExecutor(max_workers=len(exs)) as pool:
                 rs = list(pool.map(one, exs))
-        for rc, out, res in rs:
+        for ex, (rc, out, res) in zip(exs, rs):
+            if rc != 0 and ex == "shed" and all(r[0] == 0 for e2, r in zip(exs, rs) if e2 != "shed") \
+                    and not ({"flying", "avgFlying"} & set(self._missing)):
+                # the white-box overlay of core/load does not build against this tree (an unexported identifier it names
+                # could not be located: %s): fall back on the black-box executors - public API, CPU stub, virtual clock
+                self.whitebox = False
+                ctx.notes.append("WHITE-BOX OVERLAY UNAVAILABLE (roles not located: %s; %s): single-shedder histories run "
+                                 "through the REST wrapper (verdicts, flying / avgFlying by reflection), multi / conc / group "
+                                 "kinds and the -race monitor are skipped in this run"
+                                 % (", ".join(self._missing) or "none", out.strip().split("\n")[-1][:200]))
+                continue
             if rc != 0:
                 return False, out
         return True, ""
 
     def extra(self, ctx):
-        """free-running -race monitor of conservation / idle-never-sheds / one sample per resolution under real concurrency
+        """(skipped when the white-box overlay is unavailable) free-running -race monitor of conservation / idle-never-sheds / one sample per resolution under real concurrency
         (both tiers since round 4: it takes a few seconds and is the only thing that notices a lock or an atomic taken away -
         mutation sweep C02-m006 / C02-m042: `defer rw.lock.Unlock()` run at once)."""
-        rc, out, res = vlib.go_test_overlay("./core/load", OVERLAY, run="^TestVerifC02Race$", cases=[], tag="c02r",
+        if not self.whitebox:
+            return []
+        rc, out, res = vlib.go_test_overlay("./core/load", self._executors()["shed"][1], run="^TestVerifC02Race$", cases=[], tag="c02r",
                                             timeout=600, race=True, env={"VERIF_C02_RACE": "1"})
         ctx.checker_cmds.append("go test -race -run TestVerifC02Race ./core/load (overlay): 16 goroutines x 3000 Allow/Pass/Fail; 4000 rounds of two concurrent resolutions against a lock contender")
         if rc != 0 or not res:
@@ -1011,6 +1074,8 @@ class C02(Property):
 
     def coq_case(self, case, obs):
         kind = case.get("kind", "shed")
+        if obs.get("skipped"):
+            return "CGroup [] []"       # nothing was executed, nothing is judged (counted under the feature below)
         if kind == "rest":
             items = []
             for q, o in zip(case["reqs"], obs["obs"]):
@@ -1241,7 +1306,7 @@ class C02(Property):
     def _views(self, case, obs):
         """the single-shedder histories contained in a case: [(legacy case, observation)]"""
         kind = case.get("kind", "shed")
-        if obs.get("broken"):
+        if obs.get("broken") or obs.get("skipped"):
             return []
         if kind == "shed":
             return [(case, obs)]
@@ -1277,7 +1342,7 @@ class C02(Property):
 
     def nontrivial(self, case, obs):
         kind = case.get("kind", "shed")
-        if obs.get("broken"):
+        if obs.get("broken") or obs.get("skipped"):
             return False
         if kind == "conc":
             # overlapping Allows whose verdicts differ, at least one of them parked as a dropper while another decided
@@ -1311,6 +1376,8 @@ class C02(Property):
 
     def features(self, case, obs):
         kind = case.get("kind", "shed")
+        if obs.get("skipped"):
+            return ["kind=" + kind, "skipped_white_box_overlay_unavailable"]
         if obs.get("broken"):
             return ["kind=" + kind, "forced_schedule_not_executable"]
         if kind in ("multi", "wrest", "wrpc", "conc"):
